@@ -137,7 +137,8 @@ def o_ops(spec):
 def mat_cases(draw, tier):
     n = draw(st.integers(1, 3 if tier == "quick" else 4))
     return {"n": n, "mseed": draw(st.integers(0, 10 ** 6)),
-            "kind": draw(st.sampled_from(["complex", "complex", "hermitian", "zero", "pad_last", "real", "single"]))}
+            "kind": draw(st.sampled_from(["complex", "complex", "hermitian", "zero", "pad_last", "real", "single", "diagonal", "integer", "sparse"])),
+            "layout": draw(st.sampled_from(["list", "list", "c128", "fortran", "c64", "strided"]))}
 
 
 def _matrix(spec):
@@ -158,7 +159,30 @@ def _matrix(spec):
     elif k == "single":
         A = np.zeros((d, d), dtype=complex)
         A[rs.randint(d), rs.randint(d)] = 1.0
+    elif k == "diagonal":  # exactly diagonal, not symmetric under bit reversal
+        A = np.diag(rs.normal(size=d) + 1j * rs.normal(size=d) * rs.randint(2))
+    elif k == "integer":
+        A = (rs.randint(-5, 6, size=(d, d)) + 1j * rs.randint(-2, 3, size=(d, d)) * rs.randint(2)).astype(complex)
+    elif k == "sparse":
+        A = A * (rs.uniform(size=(d, d)) < 0.25)
     return A
+
+
+def _laid_out(A, layout):
+    """The same matrix in the containers / memory layouts a caller may hold it in."""
+    if layout == "list":
+        return A.tolist(), 1e-9
+    if layout == "c128":
+        return np.array(A, dtype=np.complex128), 1e-9
+    if layout == "fortran":
+        return np.asfortranarray(A), 1e-9
+    if layout == "c64":
+        return A.astype(np.complex64), 1e-5
+    if layout == "strided":
+        big = np.zeros((2 * A.shape[0], 2 * A.shape[1]), dtype=complex)
+        big[::2, ::2] = A
+        return big[::2, ::2], 1e-9
+    raise ValueError(layout)
 
 
 def o_matrix(spec):
@@ -167,14 +191,20 @@ def o_matrix(spec):
 
     A = _matrix(spec)
     n = spec["n"]
-    op = must(lambda: get_pauliop_from_matrix(A.tolist()), "get_pauliop_from_matrix")
+    arg, tol = _laid_out(A, spec.get("layout", "list"))
+    if spec.get("layout") == "c64":
+        A = np.asarray(arg, dtype=complex)  # the single-precision values are the input
+        tol = 1e-5
+    before = np.array(arg, dtype=complex).copy()
+    op = must(lambda: get_pauliop_from_matrix(arg), "get_pauliop_from_matrix")
+    require(np.array_equal(np.array(arg, dtype=complex), before), "get_pauliop_from_matrix modified its input")
     B = must(lambda: get_sparse_operator(op, n_qubits=n), "get_sparse_operator").toarray()
-    require(ref.close(B, A, 1e-9), lambda: f"Pauli expansion does not reproduce the matrix, max|d|={ref.maxdiff(B, A):.3g}")
+    require(ref.close(B, A, tol), lambda: f"Pauli expansion does not reproduce the matrix ({spec.get('layout')} input), max|d|={ref.maxdiff(B, A):.3g}")
     # the expansion itself is the trace formula
     R = ref.canon_matrix(pgen.canon_of(op), n)
-    require(ref.close(R, A, 1e-9), "expansion coefficients do not denote the matrix")
+    require(ref.close(R, A, tol), "expansion coefficients do not denote the matrix")
     ycomp = abs(np.trace(ref.pauli_string_matrix({n - 1: "Y"}, n) @ A)) > 1e-9 or abs(np.trace(ref.pauli_string_matrix({0: "Y"}, n) @ A)) > 1e-9
-    return {"classes": ["kind:" + spec["kind"], "n:%d" % n], "nontrivial": bool(ycomp) or spec["kind"] in ("complex", "hermitian")}
+    return {"classes": ["kind:" + spec["kind"], "n:%d" % n, "layout:" + spec.get("layout", "list")], "nontrivial": bool(ycomp) or spec["kind"] in ("complex", "hermitian")}
 
 
 # ---------------------------------------------------------------- wide registers (matrix-free reference)
